@@ -62,7 +62,7 @@ def run(args):
             _, _, d, bd, is_mut, kind, v = req.split(" ")
             ctx.nontrivial.add(req)
             # what the documented rule says: a plain / compound assignment to a visible immutable binding is an error
-            if kind in ("plain", "compound"):
+            if kind in ("plain", "compound", "method", "field", "index"):
                 exp = "accepted" if is_mut == "1" else "mutationWithoutMut"
             else:
                 # `let x` / `mut x` declares a new variable unless x is already bound in the very same block
@@ -103,5 +103,5 @@ def run(args):
         ctx.coverage_extra = {"histogram": hist, "harness_meta": metas, "oracle_failures": len(failures)}
     ctx.conclude_broken_obligations(failures)
     return ctx.finish(
-        rule="single local edits of accepted programs: (a) every expression position found by an independent AST walker (73 roles: conditions of if/elif/while, loop iterables, match subjects/guards/arm bodies, call and method arguments, constructor fields, comprehension parts, closure bodies, index/slice parts, tuple/list/dict/set elements, field defaults …) in the two corpus programs and in every example / fixture / snapshot source of the repository replaced by an unknown name; (b) 21 rule-violating statements (unknown name, wrong-typed assignment / return / argument, too few / too many / unknown keyword arguments, bare `return` in a function returning a value, a `mut self` method called on an immutable binding, re-assignment and compound assignment of an immutable, `?` on a non-Result and in a non-Result function, match missing an Option / enum variant, constructor with missing / unknown / duplicate field, unknown name inside an f-string) inserted at the head of every statement list (function, method of model/class/trait/newtype, then/elif/else, while, for, match arm block); (c) binding depth × assignment depth × mutability × assignment form through six nesting constructs; (d) random matches over enum/Option/Result (variant names related by prefix / suffix / case); (e) function and method calls with 1-4 parameters of primitive / collection / model / class / trait type, positional and keyword arguments, 0-2 of them of a type the parameter does not accept, defaults on trailing parameters, arguments dropped / a surplus positional / an unknown keyword; (f) generated traits (0-2 @requires fields, 1-3 required / default methods) adopted by a class, a model or a class inheriting half of its members, each required member present / absent / of another type or signature; distinct = (file, role/block, rule, index)",
+        rule="single local edits of accepted programs: (a) every expression position found by an independent AST walker (73 roles: conditions of if/elif/while, loop iterables, match subjects/guards/arm bodies, call and method arguments, constructor fields, comprehension parts, closure bodies, index/slice parts, tuple/list/dict/set elements, field defaults …) in the two corpus programs and in every example / fixture / snapshot source of the repository replaced by an unknown name; (b) 26 rule-violating statements (`?` and unknown names inside closures and comprehensions, field assignment through an immutable binding, unknown name, wrong-typed assignment / return / argument, too few / too many / unknown keyword arguments, bare `return` in a function returning a value, a `mut self` method called on an immutable binding, re-assignment and compound assignment of an immutable, `?` on a non-Result and in a non-Result function, match missing an Option / enum variant, constructor with missing / unknown / duplicate field, unknown name inside an f-string) inserted at the head of every statement list (function, method of model/class/trait/newtype, then/elif/else, while, for, match arm block); (c) binding depth × assignment depth × mutability × seven forms (plain, let, mut, compound assignment, `mut self` method call, field assignment, index assignment) through six nesting constructs; (d) random matches over enum/Option/Result (variant names related by prefix / suffix / case); (e) function and method calls with 1-4 parameters of primitive / collection / model / class / trait type, positional and keyword arguments, 0-2 of them of a type the parameter does not accept, defaults on trailing parameters, arguments dropped / a surplus positional / an unknown keyword; (f) generated traits (0-2 @requires fields, 1-3 required / default methods) adopted by a class, a model or a class inheriting half of its members, each required member present / absent / of another type or signature; distinct = (file, role/block, rule, index)",
         extra_cov=getattr(ctx, "coverage_extra", None))
